@@ -1,7 +1,7 @@
 package dtls
 
 //symgo:pkg github.com/pion/dtls/v3
-//symgo:param NWIN quick=3 thorough=4
+//symgo:param NWIN quick=3 thorough=5
 //symgo:stub CipherSuite / RecordProtection13 are harness fakes that authenticate every record (the claim is about the replay bookkeeping around them) and return the record bytes as plaintext
 //symgo:outside arrival sequences longer than three records are covered through the window lemma (window.go) only; goroutine interleavings
 
@@ -84,11 +84,39 @@ func zzWindow6(i int) int {
 	case 0:
 		return 64
 	case 1:
-		return 128
+		return 48
 	case 2:
 		return 1
+	case 3:
+		return 128
 	}
 	return 200
+}
+
+// effectiveReplayProtectionWindow (config.go: the only place Conn.replayProtectionWindow comes from) for EVERY int
+// up to MaxInt-64: the result is positive, a whole number of 64-bit words, at least the configured size and less
+// than one word above it; non-positive sizes give the default 64. Whole words are what makes the dependency's
+// detector a correct sliding window (lemma zzWindowStep in window.go, proved for sizes that are multiples of 64).
+//
+//symgo:entry covers=default_window,rounded_up,already_whole_words
+func zzEffectiveWindowWholeWords() {
+	w := zzsymInt("configured_window")
+	zzsymAssume(w <= (1<<63-1)-64)
+	r := effectiveReplayProtectionWindow(w)
+	zzsymAssert(r > 0, "effective_window_positive")
+	zzsymAssert(r%64 == 0, "effective_window_is_whole_words")
+	if w <= 0 {
+		zzsymAssert(r == defaultReplayProtectionWindow, "non_positive_window_gives_default")
+		zzsymCover("default_window")
+
+		return
+	}
+	zzsymAssert(r >= w && r-w < 64, "effective_window_rounds_up_less_than_one_word")
+	if r == w {
+		zzsymCover("already_whole_words")
+	} else {
+		zzsymCover("rounded_up")
+	}
 }
 
 func zzConn6(window int) *Conn {
@@ -115,7 +143,7 @@ func zzDrain6(c *Conn) int {
 	return n
 }
 
-// DTLS 1.2 receive path with the CONFIGURED replay window W (64, 128, 1; thorough adds 200): two authentic
+// DTLS 1.2 receive path with the CONFIGURED replay window W (64, 48, 1; thorough adds 128, 200): two authentic
 // application-data records of the same epoch with arbitrary 48-bit sequence numbers s1 then s2 arrive. Proved: the
 // second is delivered exactly when it is not a repetition and (it is newer or fewer than W behind s1); a repetition is
 // never delivered; a record W or more behind is dropped. (The detector really is created with the configured size.)
@@ -148,10 +176,46 @@ func zzConnWindow12() {
 	case zzsymOr(s2 > s1, s1-s2 < uint64(w)):
 		zzsymAssert(got == 1, "record_inside_configured_window_delivered_once")
 		zzsymCover("in_window_delivered")
-	default:
+	case s1-s2 >= uint64(effectiveReplayProtectionWindow(w)):
+		// beyond the window the detector was really created with (the configured size rounded up to whole words)
 		zzsymAssert(got == 0, "record_outside_window_dropped")
 		zzsymCover("too_old_dropped")
+	default:
+		zzsymAssert(got <= 1, "record_between_configured_and_effective_window_at_most_once")
 	}
+}
+
+// DTLS 1.2 receive path, replay after the window moved, for every configured window W (64, 48, 1; thorough adds
+// 128, 200): authentic records s1, then a newer s2 fewer than W ahead of it (the window shifts), then s1 AGAIN.
+// Proved: the repetition is not delivered. This is the three-step history in which the detector of pion/transport
+// forgets accepted numbers when its size is not a whole number of 64-bit words (W=48: every number more than 16
+// behind the newest one) - FAILED on the tree before the effectiveReplayProtectionWindow repair.
+//
+//symgo:entry covers=replay_after_shift_dropped
+func zzConnReplayAfterShift12() {
+	w := zzWindow6(zzsymChoice("window", zzsymParam("NWIN")))
+	c := zzConn6(w)
+	common := dtlsstate.CommonState(c.state)
+	common.LocalVersion = protocol.Version1_2
+	common.SetRemoteEpoch(1)
+	mk := func(seq uint64) []byte {
+		h := recordlayer.Header{ContentType: protocol.ContentTypeApplicationData, Version: protocol.Version1_2, Epoch: 1, SequenceNumber: seq, ContentLen: 1}
+		raw, _ := h.Marshal()
+		return append(raw, 0x55)
+	}
+	s1, s2 := zzsymU64("seq1"), zzsymU64("seq2")
+	zzsymAssume(s2 <= recordlayer.MaxSequenceNumber)
+	zzsymAssume(s2 > s1)
+	zzsymAssume(s2-s1 < uint64(w))
+	from := &net.UDPAddr{Port: 1}
+	_, err := c.handleIncomingPacket(context.Background(), mk(s1), from, nil)
+	zzsymAssert(err == nil && zzDrain6(c) == 1, "first_delivered")
+	_, err = c.handleIncomingPacket(context.Background(), mk(s2), from, nil)
+	zzsymAssert(err == nil && zzDrain6(c) == 1, "newer_delivered")
+	_, err = c.handleIncomingPacket(context.Background(), mk(s1), from, nil)
+	zzsymAssert(err == nil, "replay_no_error")
+	zzsymAssert(zzDrain6(c) == 0, "replay_inside_window_after_shift_not_delivered")
+	zzsymCover("replay_after_shift_dropped")
 }
 
 func zzRec13(epochLow byte, seq uint16, body byte) []byte {
@@ -191,9 +255,11 @@ func zzConnWindow13() {
 	case zzsymOr(s2 > s1, int(s1)-int(s2) < w):
 		zzsymAssert(got == 1, "record_inside_configured_window_delivered_once13")
 		zzsymCover("in_window_delivered13")
-	default:
+	case int(s1)-int(s2) >= effectiveReplayProtectionWindow(w):
 		zzsymAssert(got == 0, "record_outside_window_dropped13")
 		zzsymCover("too_old_dropped13")
+	default:
+		zzsymAssert(got <= 1, "record_between_configured_and_effective_window_at_most_once13")
 	}
 }
 
